@@ -67,6 +67,24 @@ MUTS = {
  'M25_claim_load_then_store': lambda: sub('future.h','        return _owner.exchange(nullptr, std::memory_order_relaxed);','        auto m = _owner.load(std::memory_order_relaxed);\n        if (m != nullptr) _owner.store(nullptr, std::memory_order_relaxed);\n        return m;'),
  'M26_awaitable_bool_reads_state_first': lambda: sub('future.h','        bool await_ready() noexcept {return this->_owner.ready();}','        bool await_ready() noexcept {return this->_owner._state != State::not_value || this->_owner.ready();}'),
  'M27_publisher_wakeup_buffer_in_place': lambda: sub('publisher.h','             for (awaiter *x: wk) x->resume();','             for (awaiter *x: _wakeup_buffer) x->resume();'),
+ 'M28_pool_notify_after_unlock': lambda: sub('thread_pool.h',"""            std::lock_guard _(_mx);
+            _stopped = true;
+            _cond.notify_all();""","""            {
+                std::lock_guard _(_mx);
+                _stopped = true;
+            }
+            _cond.notify_all();"""),
+ 'M29_discard_awaiter_member_after_publish': lambda: (sub('future.h','            waiting = (_fut.operator co_await()).subscribe(this);','            waiting = (_fut.operator co_await()).subscribe(this);\n            _subscribed = waiting;'), sub('future.h','    protected:\n        fut_type _fut;\n    };','    protected:\n        fut_type _fut;\n        bool _subscribed = false;\n    };')),
+ 'M30_publisher_regs_reference_after_unlock': lambda: sub('publisher.h',"""        std::size_t position(Handle h) {
+            //_regs can be reallocated by a concurrent subscribe, so it must be read under the lock
+            std::lock_guard _(_mx);
+            return _regs[h]._pos;""","""        std::size_t position(Handle h) {
+            const subreg_t *r;
+            {
+                std::lock_guard _(_mx);
+                r = &_regs[h];
+            }
+            return r->_pos;"""),
  # must stay silent
  'S1_ready_seq_cst': lambda: sub('future.h','return _awaiter.load(std::memory_order_acquire) == &awaiter::disabled;','return _awaiter.load(std::memory_order_seq_cst) == &awaiter::disabled;'),
  'S2_rename_local': lambda: (sub('mutex.h','awaiter *req = _requests.exchange(doorman(), std::memory_order_acquire);','awaiter *taken = _requests.exchange(doorman(), std::memory_order_acquire);\n        awaiter *req = taken;'),),
@@ -84,6 +102,10 @@ MUTS = {
         return _queue.empty();"""),
  'S8_unlock_reads_queue_again_as_owner': lambda: sub('mutex.h','        awaiter *first = _queue;\n','        awaiter *first = _queue;\n        if (_queue == nullptr) return;\n'),
  'S10_awaitable_bool_state_after_ready': lambda: sub('future.h','        bool await_ready() noexcept {return this->_owner.ready();}','        bool await_ready() noexcept {if (!this->_owner.ready()) return false; return this->_owner._state != State::not_value || true;}'),
+ 'S11_pointer_into_guarded_state_used_under_lock': lambda: sub('publisher.h',"""            std::lock_guard _(_mx);
+            return _regs[h]._pos;""","""            std::lock_guard _(_mx);
+            const subreg_t *r = &_regs[h];
+            return r->_pos;"""),
  'S7_cas_fail_acquire_no_fence': lambda: (sub('awaiter.h','while (!chain.compare_exchange_weak(_next, this, std::memory_order_release)) {','while (!chain.compare_exchange_weak(_next, this, std::memory_order_release, std::memory_order_acquire)) {'), sub('awaiter.h','                std::atomic_thread_fence(std::memory_order_acquire);\n','')),
 }
 def run(name):
